@@ -73,7 +73,7 @@ MIN_COUNTERS = {
     'quick': {'lift_method_evaluations': 5000, 'lift_builtin_evaluations': 5000,
               'lift_value_agreements': 6000, 'law_samples': 20000,
               'law_exact_tie': 1500, 'evaluated_with_non_None_inval': 20000,
-              'channellist_narop_longer_list_argument': 50,
+              'channellist_narop_longer_list_argument': 40,
               'stream_history_pulls_compared': 20000,
               'reentrant_function_calls_compared': 3000,
               'concurrent_function_calls_compared': 3000,
@@ -245,7 +245,7 @@ class LiftCase:
                 k = rng.choice(other_kinds_for(self.akind, rng))
             else:
                 k = rng.choice(narop_arg_kinds(self.akind))
-                if fam == 'channels' and rng.random() < 0.12:
+                if fam == 'channels' and rng.random() < 0.3:
                     k = rng.choice(['chan', 'list'])
                     self.expand = True
             self.okinds.append(k)
